@@ -90,16 +90,17 @@ type violation struct {
 }
 
 type result struct {
-	Property   string               `json:"property"`
-	Tier       string               `json:"tier"`
-	Seed       int64                `json:"seed"`
-	Evals      int                  `json:"evaluations"`
-	NonTrivial int                  `json:"distinct_nontrivial"`
-	Families   map[string]*famStats `json:"families"`
-	Samples    []map[string]string  `json:"samples"`
-	Violations []violation          `json:"violations"`
-	WallS      float64              `json:"wall_s"`
-	HooksOn    bool                 `json:"hooks_on"`
+	Property        string               `json:"property"`
+	RetriedTimeouts int                  `json:"retried_timeouts"`
+	Tier            string               `json:"tier"`
+	Seed            int64                `json:"seed"`
+	Evals           int                  `json:"evaluations"`
+	NonTrivial      int                  `json:"distinct_nontrivial"`
+	Families        map[string]*famStats `json:"families"`
+	Samples         []map[string]string  `json:"samples"`
+	Violations      []violation          `json:"violations"`
+	WallS           float64              `json:"wall_s"`
+	HooksOn         bool                 `json:"hooks_on"`
 }
 
 func defaultNonTrivial(r Resp) bool {
@@ -181,6 +182,29 @@ func runCheck(prop, tier string, seed int64, modelPath, selfPath, replayDir, out
 		}
 		nViolFam := len(res.Violations)
 		implOut := implPool.askAll(reqs)
+		// "no answer within the limit" on a busy machine is not a hang: before it is believed, the
+		// request is asked again, alone, in a fresh worker with six times the limits. A genuine
+		// hang never answers; after three retried requests that still hang the rest is believed.
+		{
+			stillHung := 0
+			for i := range reqs {
+				if stillHung >= 3 {
+					break
+				}
+				if ParseResp(implOut[i])["class"] != "timeout" {
+					continue
+				}
+				w := &worker{argv: []string{selfPath, "implworker"}, env: []string{"GOMEMLIMIT=2GiB", "VERIF_SLOW=6"}, timeout: 120 * time.Second}
+				again := w.ask(reqs[i])
+				w.stop()
+				if ParseResp(again)["class"] == "timeout" {
+					stillHung++
+				} else {
+					implOut[i] = again
+					res.RetriedTimeouts++
+				}
+			}
+		}
 		var modelReqs []string
 		var modelIdx []int
 		for i, c := range cases {
@@ -214,6 +238,11 @@ func runCheck(prop, tier string, seed int64, modelPath, selfPath, replayDir, out
 					w := &worker{argv: []string{selfPath, "implworker"}, env: []string{"GOMEMLIMIT=2GiB"}, timeout: 20 * time.Second}
 					res[j] = w.ask(req)
 					w.stop()
+					if ParseResp(res[j])["class"] == "timeout" { // busy machine: once more, with generous limits
+						w2 := &worker{argv: []string{selfPath, "implworker"}, env: []string{"GOMEMLIMIT=2GiB", "VERIF_SLOW=6"}, timeout: 120 * time.Second}
+						res[j] = w2.ask(req)
+						w2.stop()
+					}
 					<-sem
 				}(j, cases[i].modelReq())
 			}
